@@ -24,6 +24,7 @@ mkdir -p "$OUT.tmp"
 ( cd "$VERIF/sim" && go build -modfile="$S/lssim.mod" "${FLAGS[@]}" -o "$OUT.tmp/lssim" ./cmd/lssim ) >"$S/build.log" 2>&1 || { cat "$S/build.log" >&2; rm -rf "$OUT.tmp"; echo "build.sh: build failed" >&2; exit 2; }
 cp "$S/sites.json" "$OUT.tmp/sites.json"
 rm -rf "$OUT"; mv "$OUT.tmp" "$OUT"
-# keep the four most recent builds
-ls -1dt "$CACHE"/build/*/ 2>/dev/null | tail -n +5 | xargs -r rm -rf
+# keep the twelve most recent builds (a run in progress must not lose its binary
+# to builds made by other runs meanwhile)
+ls -1dt "$CACHE"/build/*/ 2>/dev/null | tail -n +13 | xargs -r rm -rf
 echo "$OUT"
